@@ -72,7 +72,7 @@ func runMutant(m mutant, o *options) mutantOutcome {
 	oo.tier = "quick"
 	discharge(cr.obls, &oo)
 	for _, ob := range cr.obls {
-		bad := ob.Status == "failed" || ob.Status == "cover-failed" || ob.Status == "cover-unknown"
+		bad := ob.Status == "failed" || ob.Status == "cover-failed"
 		if !bad {
 			continue
 		}
